@@ -437,7 +437,7 @@ def find_cycle(g, targets):
 def gen_cycle_history(rnd, sid):
     feat = dict(deps=0.0, rsp=0.0, validations=0.3, generator=0.0, pools=0.2)
     g = engine.gen_graph(rnd, rnd.randrange(2, 8), feat)
-    kind = rnd.choice(['none', 'manifest', 'manifest', 'dyndep-source', 'dyndep-built', 'validation-back', 'self', 'self'])
+    kind = rnd.choice(['none', 'manifest', 'manifest', 'dyndep-source', 'dyndep-built', 'validation-back', 'self', 'self', 'dyndep-output', 'dyndep-output'])
     real = [e for e in g.edges]
     prod = g.producer()
     def pick_pair():
@@ -445,6 +445,7 @@ def gen_cycle_history(rnd, sid):
         cands = [(a, b) for a in real for b in real if a is not b and b.idx in g.dependents_of(a)]
         return rnd.choice(cands) if cands else None
     pr = pick_pair()
+    if kind == 'dyndep-output' and not (pr and not pr[1].phony and [x for x in pr[0].exp + pr[0].imp if x in g.sources]): kind = 'none'
     if kind == 'self':
         # a statement that lists its own output as an input.  Tolerated (that input is dropped with a warning) only in the legacy
         # form: phony, exactly ONE output, no implicit output, no implicit input; a cycle of length one in every other form
@@ -467,7 +468,19 @@ def gen_cycle_history(rnd, sid):
         a, b = pr; o = rnd.choice(b.outs)
         where = rnd.choice(['exp', 'imp', 'oo']) if not a.phony else 'exp'
         getattr(a, where).append(o)
-    elif kind.startswith('dyndep'):
+    elif kind == 'dyndep-output' and pr and not pr[1].phony and [x for x in pr[0].exp + pr[0].imp if x in g.sources]:
+        # the cycle is closed by a dyndep-discovered implicit OUTPUT: statement b (which depends on a) turns out, through its
+        # dyndep file, to produce a file that a reads and that looked like a plain source until the file was loaded
+        a, b = pr
+        s_ = rnd.choice([x for x in a.exp + a.imp if x in g.sources])
+        dd = 'ddc'; b.dyndep = dd; b.oo.append(dd)
+        g.dd_info[dd] = {b.out0: ([s_], [], False)}
+        text = engine.dd_text(g.dd_info[dd])
+        if rnd.random() < 0.6: g.sources[dd] = text; kind = 'dyndep-output-source'
+        else:
+            pe = engine.Edge(950); pe.outs = [dd]; pe.exp = [rnd.choice(sorted(x for x in g.sources if x != s_) or [s_])]
+            g.edges[0:0] = [pe]; g.ddtext[dd] = text; kind = 'dyndep-output-built'
+    elif kind.startswith('dyndep') and kind != 'dyndep-output':
         a, b = pr
         if a.phony:
             kind = 'manifest'; a.exp.append(rnd.choice(b.outs))
@@ -497,7 +510,8 @@ def gen_cycle_history(rnd, sid):
     outs = [o for e in g.edges for o in e.outs]
     for i in range(rnd.randrange(1, 4)):
         t = rnd.sample(outs, rnd.randrange(1, min(3, len(outs)) + 1))
-        if kind.startswith('dyndep') and rnd.random() < 0.7: t = list(set(t + [a.out0]))
+        if kind.startswith('dyndep-output'): t = list(set(t + [b.out0]))      # ninja learns about the produced file only by visiting the bound statement
+        elif kind.startswith('dyndep') and rnd.random() < 0.7: t = list(set(t + [a.out0]))
         if i and 'xsrc' in g.sources and rnd.random() < 0.8: h.edit('xsrc', 'x.%d' % rnd.randrange(100000))
         elif i and rnd.random() < 0.3:
             sname = rnd.choice(sorted(x for x in h.sources if not x.startswith('dd'))); h.edit(sname, 'e.%d' % rnd.randrange(100000))
@@ -508,6 +522,12 @@ def oracle_c17(h, st, b, prev=None):
     g = st.g; prod = g.producer(); bad = []
     cyc = find_cycle(g, st.targets or default_targets(g))
     said = 'dependency cycle' in (b.err or '')
+    if cyc and not said and getattr(h, 'cycle_kind', '').startswith('dyndep-output'):
+        # listed finding (classified by the caller): a cycle closed by a dyndep-discovered implicit OUTPUT is not diagnosed when the
+        # consumer of that file was scanned (or has even run) before the dyndep file was loaded.  Faces: "stuck [this is a bug]"
+        # (non-zero exit since the fix), or a build that simply finishes when the consumer was already clean / phony / done
+        face = 'stops with "%s" (exit %s)' % ((b.err or '')[:40], b.exit) if b.exit not in (0, None) else 'finishes with exit 0 after starting %s' % b.started
+        return [('KNOWN:dyndep-output-cycle-not-named', 'the requested targets need a dependency cycle (%s) closed by a dyndep-discovered output; ninja %s instead of naming the cycle' % (' -> '.join(cyc), face))]
     if cyc and not said:
         bad.append('the requested targets need a dependency cycle (%s) but ninja ended with exit=%s "%s" after starting %s' % (' -> '.join(cyc), b.exit, (b.err or '')[:80], b.started))
     if said:
@@ -522,7 +542,9 @@ def oracle_c17(h, st, b, prev=None):
                 if e is None or y not in g.all_ins(e, with_hidden=False): bad.append('reported hop %s -> %s is not a dependency' % (x, y))
             cyc_edges = {prod[x].out0 for x in hops if x in prod}
             for o in b.started:
-                if o in cyc_edges: bad.append('command %s of the reported cycle was run' % o)
+                # (a cycle that only a dyndep file produced DURING this build reveals, through an implicit output: its consumer may
+                # legitimately have run before the file existed)
+                if o in cyc_edges and getattr(h, 'cycle_kind', '') != 'dyndep-output-built': bad.append('command %s of the reported cycle was run' % o)
     return bad or None
 
 # ------------------------------------------------------------------ C11: dyndep pairs and invalid files
